@@ -1,5 +1,6 @@
 import PynProofs.Search
 import PynModel.Core.Slice
+import PynModel.Core.Trial
 /-!
 # C08 — time-window slicing and trial tensors select exactly the windowed samples
 Model: `Pyn.getSlice` (`_Base._get_slice`, all four modes, Python negative-index wrap-around
@@ -8,8 +9,10 @@ included), over the `np.searchsorted` specification functions `ssLeft` / `ssRigh
 Proved: `get(start, end)` (mode `restrict`) returns exactly the samples with
 `start ≤ t ≤ end`, duplicates at either edge included (`get_window`); `get(start)` (mode `closest_t`, no end)
 returns a sample nearest to `start`, for any non-empty sorted series and any `start` before, inside or after the
-data, Python's wrap-around read `t[-1]` included (`get_nearest`).  The modes `before_t` / `after_t` and the
-trial-tensor / trial_count / warp layout are decided by oracle + correspondence.
+data, Python's wrap-around read `t[-1]` included (`get_nearest`).  `to_trial_tensor` (`PynModel/Core/Trial.lean`): one row per trial,
+all rows equally long, sample `k` in row `i` iff `start_i ≤ t[k] ≤ end_i`, occupied cells consecutive in time
+order at the start / end of the row (`trial_rows`, `trialRow_mem`).  The modes `before_t` / `after_t`, trial_count
+and warp are decided by oracle + correspondence.
 -/
 namespace Pyn.C08
 open Pyn
@@ -137,8 +140,121 @@ theorem get_nearest (t : Array Int) (hs : Sorted t) (hn : 0 < t.size) (s : Int) 
       omega
 
 
+/-! ## to_trial_tensor: each trial's samples in that trial's row -/
+
+theorem trialRow_size (a len nt : Nat) (al : Bool) : (trialRow a len nt al).size = nt := by simp [trialRow]
+
+theorem trialRow_get (a len nt : Nat) (al : Bool) (j : Nat) (hj : j < (trialRow a len nt al).size) :
+    (trialRow a len nt al)[j] =
+      if al then (if nt - len ≤ j then some (a + (j - (nt - len))) else none)
+      else (if j < len then some (a + j) else none) := by
+  simp [trialRow]
+
+/-- the cells of a row hold exactly the positions `a .. a+len-1`, in increasing order, contiguous at the start
+(`align="start"`) or at the end (`align="end"`) -/
+theorem trialRow_mem (a len nt : Nat) (al : Bool) (hl : len ≤ nt) (k : Nat) :
+    some k ∈ trialRow a len nt al ↔ (a ≤ k ∧ k < a + len) := by
+  rw [Array.mem_iff_getElem]
+  constructor
+  · rintro ⟨j, hj, e⟩
+    rw [trialRow_get] at e
+    have hj' : j < nt := by simpa [trialRow_size] using hj
+    cases al
+    · simp only [Bool.false_eq_true, if_false] at e
+      split at e
+      · simp at e; omega
+      · simp at e
+    · simp only [if_true] at e
+      split at e
+      · simp at e; omega
+      · simp at e
+  · rintro ⟨h1, h2⟩
+    cases al
+    · refine ⟨k - a, by simp [trialRow_size]; omega, ?_⟩
+      rw [trialRow_get]
+      have : k - a < len := by omega
+      simp [this]; omega
+    · refine ⟨nt - len + (k - a), by simp [trialRow_size]; omega, ?_⟩
+      rw [trialRow_get]
+      have : nt - len ≤ nt - len + (k - a) := by omega
+      simp; omega
+
+theorem trialSlices_ok (t : Array Int) (trials : List (Int × Int)) (hle : ∀ p ∈ trials, p.1 ≤ p.2) :
+    trialSlices t trials = .ok (trials.map fun p => (((ssLeft t p.1 0 : Nat) : Int), ((ssRight t p.2 0 : Nat) : Int))) := by
+  unfold trialSlices
+  induction trials with
+  | nil => rfl
+  | cons p ps ih =>
+    simp only [List.mapM_cons, getSlice_restrict_eq t p.1 p.2 (hle p (List.mem_cons_self ..)), bind, Except.bind,
+      ih (fun q hq => hle q (List.mem_cons_of_mem _ hq)), pure, Except.pure, List.map_cons]
+
+theorem le_foldl_max (l : List Nat) (init x : Nat) (h : x ∈ l ∨ x ≤ init) : x ≤ l.foldl max init := by
+  induction l generalizing init with
+  | nil =>
+    rcases h with h | h
+    · simp at h
+    · simpa using h
+  | cons a t ih =>
+    simp only [List.foldl_cons]
+    apply ih
+    rcases h with h | h
+    · rcases List.mem_cons.1 h with e | e
+      · right; subst e; omega
+      · exact Or.inl e
+    · right; omega
+
+/-- **to_trial_tensor puts exactly each trial's samples in that trial's row**: for non-decreasing timestamps and a
+non-empty list of trials with `start ≤ end`, the tensor has one row per trial, all rows equally long, and sample
+position `k` occurs in row `i` iff `start_i ≤ t[k] ≤ end_i` (by `trialRow_mem` the occupied cells are consecutive, in
+time order, at the start or at the end of the row; every other cell is padding) -/
+theorem trial_rows (t : Array Int) (hs : Sorted t) (trials : List (Int × Int)) (hne : trials ≠ [])
+    (hle : ∀ p ∈ trials, p.1 ≤ p.2) (al : Bool) :
+    ∃ rows nt, trialTensor t trials al = .ok rows ∧ rows.length = trials.length ∧
+      (∀ r ∈ rows, r.size = nt) ∧
+      ∀ i, (hi : i < trials.length) → (hi2 : i < rows.length) → ∀ k, (hk : k < t.size) →
+        (some k ∈ rows[i] ↔ ((trials[i]).1 ≤ t[k] ∧ t[k] ≤ (trials[i]).2)) := by
+  have hsl := trialSlices_ok t trials hle
+  unfold trialTensor
+  simp only [hsl, bind, Except.bind]
+  have hemp : (trials.map fun p => (((ssLeft t p.1 0 : Nat) : Int), ((ssRight t p.2 0 : Nat) : Int))).isEmpty = false := by
+    cases trials with
+    | nil => exact absurd rfl hne
+    | cons a b => rfl
+  simp only [hemp, Bool.false_eq_true, if_false, pure, Except.pure]
+  obtain ⟨nt, hnt⟩ : ∃ nt, nt = (List.map (fun p : Int × Int => (p.2 - p.1).toNat)
+      (trials.map fun p => (((ssLeft t p.1 0 : Nat) : Int), ((ssRight t p.2 0 : Nat) : Int)))).foldl max 0 := ⟨_, rfl⟩
+  rw [← hnt]
+  refine ⟨_, nt, rfl, by simp, ?_, ?_⟩
+  · intro r hr
+    simp only [List.mem_map] at hr
+    obtain ⟨p, _, rfl⟩ := hr
+    exact trialRow_size _ _ _ _
+  · intro i hi hi2 k hk
+    simp only [List.getElem_map]
+    have hlen : ((((ssRight t (trials[i]).2 0 : Nat) : Int) - ((ssLeft t (trials[i]).1 0 : Nat) : Int)).toNat) ≤ nt := by
+      rw [hnt]
+      apply le_foldl_max
+      left
+      simp only [List.mem_map]
+      exact ⟨_, ⟨trials[i], List.getElem_mem hi, rfl⟩, rfl⟩
+    rw [trialRow_mem _ _ _ _ hlen]
+    have hw := ss_closed_window t (trials[i]).1 (trials[i]).2 hs k hk
+    rw [← hw]
+    have := hle _ (List.getElem_mem hi)
+    constructor
+    · rintro ⟨a, b⟩
+      constructor <;> omega
+    · rintro ⟨a, b⟩
+      constructor <;> omega
+
+
 def okIs (r : Except SliceErr (Int × Int)) (a b : Int) : Bool :=
   match r with | .ok (x, y) => x == a && y == b | _ => false
+-- an empty trial between two occupied ones, both alignments
+def trialIs (r : Except SliceErr (List (Array (Option Nat)))) (rows : List (Array (Option Nat))) : Bool :=
+  match r with | .ok x => x == rows | _ => false
+example : trialIs (trialTensor #[0, 1, 2, 5] [(0, 2), (3, 4), (5, 9)] false) [#[some 0, some 1, some 2], #[none, none, none], #[some 3, none, none]] = true := by decide +kernel
+example : trialIs (trialTensor #[0, 1, 2, 5] [(0, 2), (3, 4), (5, 9)] true) [#[some 0, some 1, some 2], #[none, none, none], #[none, none, some 3]] = true := by decide +kernel
 -- the input that was wrong before the repair: duplicates equal to `end`
 example : okIs (getSlice #[0, 1, 1, 2] 3 0 (some 1)) 0 3 = true := by decide +kernel
 example : okIs (getSlice #[0, 1, 1, 2] 3 1 (some 1)) 1 3 = true := by decide +kernel
